@@ -1,15 +1,358 @@
 package main
 
-// Ownership / lock-set obligations (C20). Filled in by own mode.
+// C20: ownership frame + lock discipline.
+//
+// Ownership is the frame obligation of loops.go (write targets are fresh in the call or named in
+// `modifies`, which may name argument-owned memory but never the receiver or package variables).
+// This file adds the lock discipline: a ghost lock set is tracked per program point
+// (State.locks), fields declared `guarded` may be read only while their lock is held (read or write
+// mode) and written only in write mode, and taking a lock forgets what was known about the data it
+// guards (other goroutines may have run in between), so a decision made in one critical section
+// cannot justify an update made in a later one.
 
 import (
+	"fmt"
+	"go/types"
+	"strings"
+
 	"golang.org/x/tools/go/ssa"
 )
 
-func (f *Frame) ownObl(base, what string, ins ssa.Instruction, isMap bool) {}
-func (f *Frame) lockReadObl(a *Addr, ins ssa.Instruction)                  {}
-func (f *Frame) lockMapObl(m *Val, ins ssa.Instruction, write bool)        {}
-func (f *Frame) lockCall(cc *ssa.CallCommon, recv *Val) bool               { return false }
+type guardedField struct {
+	PkgPath string
+	Type    string // struct type name ("" for package-level variables)
+	Field   string
+	Lock    string // field name of the mutex in the same struct, or package-level mutex name
+	// InsertOnly: (maps) an entry, once present, is never replaced -- every map update must be of a
+	// key shown absent inside the same critical section
+	InsertOnly bool
+}
+
+const (
+	lockNone  = 0
+	lockRead  = 1
+	lockWrite = 2
+)
+
+func mutexMethod(fn *ssa.Function) string {
+	if fn == nil || fn.Signature.Recv() == nil {
+		return ""
+	}
+	rt := recvTypeName(fn.Signature.Recv().Type())
+	if pkgPathOf(fn) != "sync" || (rt != "RWMutex" && rt != "Mutex") {
+		return ""
+	}
+	switch fn.Name() {
+	case "Lock", "Unlock", "RLock", "RUnlock":
+		return fn.Name()
+	}
+	return ""
+}
+
+// lockIdentity names a mutex by the address expression it is reached through.
+func (f *Frame) lockIdentity(v *Val, src ssa.Value) string {
+	if g, ok := src.(*ssa.Global); ok {
+		return "global:" + g.Pkg.Pkg.Path() + "." + g.Name()
+	}
+	if v.Addr != nil {
+		var names []string
+		t := v.Addr.CellT
+		for i, fi := range v.Addr.Path {
+			st := v.Addr.PathT[i].Underlying().(*types.Struct)
+			names = append(names, st.Field(fi).Name())
+			t = st.Field(fi).Type()
+		}
+		_ = t
+		return v.Addr.Base + "." + strings.Join(names, ".")
+	}
+	return v.T
+}
+
 func (f *Frame) lockCallStatic(fn *ssa.Function, cc *ssa.CallCommon, args []*Val) bool {
-	return false
+	m := mutexMethod(fn)
+	if m == "" {
+		return false
+	}
+	_ = f.enc
+	st := f.curSt
+	if st == nil {
+		return true
+	}
+	id := f.lockIdentity(f.val(cc.Args[0]), cc.Args[0])
+	if st.locks == nil {
+		st.locks = map[string]int{}
+	}
+	switch m {
+	case "Lock":
+		f.havocGuarded(st, f.val(cc.Args[0]), cc.Args[0])
+		st.locks[id] = lockWrite
+	case "RLock":
+		f.havocGuarded(st, f.val(cc.Args[0]), cc.Args[0])
+		if st.locks[id] < lockRead {
+			st.locks[id] = lockRead
+		}
+	case "Unlock", "RUnlock":
+		st.locks[id] = lockNone
+	}
+	return true
+}
+
+func (f *Frame) lockCall(cc *ssa.CallCommon, recv *Val) bool { return false }
+
+// havocGuarded: taking a lock is the point where other goroutines' critical sections become
+// visible -- whatever the lock protects may have changed since this goroutine last held it. What a
+// method learned about guarded data in an earlier critical section is therefore forgotten here
+// (check-then-act across two sections proves nothing about the second one).
+func (f *Frame) havocGuarded(st *State, v *Val, src ssa.Value) {
+	e := f.enc
+	c := e.ctx
+	if !e.lockset {
+		return
+	}
+	havocMap := func(mref string, t types.Type) {
+		mt, ok := t.Underlying().(*types.Map)
+		if !ok {
+			return
+		}
+		hn, hs, vn, vs := c.mapHeaps(t)
+		h := e.heapGet(st, hn, hs)
+		e.heapSet(st, hn, hs, store(h, mref, c.freshConst("acq.keys", fmt.Sprintf("(Array %s Bool)", c.sortOf(mt.Key())))))
+		hv := e.heapGet(st, vn, vs)
+		e.heapSet(st, vn, vs, store(hv, mref, c.freshConst("acq.vals", fmt.Sprintf("(Array %s %s)", c.sortOf(mt.Key()), c.sortOf(mt.Elem())))))
+	}
+	if g, ok := src.(*ssa.Global); ok {
+		for _, gf := range e.prog.Guarded {
+			if gf.Type != "" || gf.Lock != g.Name() || gf.PkgPath != g.Pkg.Pkg.Path() {
+				continue
+			}
+			gv, ok := g.Pkg.Members[gf.Field].(*ssa.Global)
+			if !ok {
+				continue
+			}
+			elem := gv.Type().Underlying().(*types.Pointer).Elem()
+			n, s := c.cellHeap(elem)
+			nv := c.freshConst("acq."+gf.Field, c.sortOf(elem))
+			e.heapSet(st, n, s, store(e.heapGet(st, n, s), f.val(gv).T, nv))
+			e.assumeTypeInv(st, nv, elem, f.guard())
+			havocMap(nv, elem)
+		}
+		e.bumpTok(st)
+		return
+	}
+	a := v.Addr
+	if a == nil || len(a.Path) == 0 {
+		return
+	}
+	i := len(a.Path) - 1
+	n, ok := a.PathT[i].(*types.Named)
+	if !ok || n.Obj().Pkg() == nil {
+		return
+	}
+	stT := a.PathT[i].Underlying().(*types.Struct)
+	lockName := stT.Field(a.Path[i]).Name()
+	for _, gf := range e.prog.Guarded {
+		if gf.Type != n.Obj().Name() || gf.PkgPath != n.Obj().Pkg().Path() || gf.Lock != lockName {
+			continue
+		}
+		for j := 0; j < stT.NumFields(); j++ {
+			if stT.Field(j).Name() != gf.Field {
+				continue
+			}
+			fa := &Addr{Base: a.Base, CellT: a.CellT, Elem: a.Elem, Idx: a.Idx}
+			fa.Path = append(append([]int{}, a.Path[:i]...), j)
+			fa.PathT = append([]types.Type{}, a.PathT...)
+			ft := stT.Field(j).Type()
+			if _, isMap := ft.Underlying().(*types.Map); isMap {
+				// the map variable itself is set at construction only (a store to it needs the
+				// write lock and is checked as such); its contents are what the lock protects
+				havocMap(e.load(st, fa), ft)
+			} else {
+				nv := c.freshConst("acq."+gf.Field, c.sortOf(ft))
+				e.storeAddr(st, fa, nv)
+				e.assumeTypeInv(st, nv, ft, f.guard())
+			}
+		}
+	}
+	e.bumpTok(st)
+}
+
+// insertObl: an update of an insert-only guarded map must be of an absent key.
+func (f *Frame) insertObl(x *ssa.MapUpdate, what string) {
+	e := f.enc
+	c := e.ctx
+	io := false
+	for _, gf := range e.prog.Guarded {
+		if gf.InsertOnly && (gf.Type+"."+gf.Field == what || (gf.Type == "" && gf.Field == what)) {
+			io = true
+		}
+	}
+	if !io || f.curSt == nil {
+		return
+	}
+	m := f.val(x.Map)
+	k := f.val(x.Key)
+	hn, hs, _, _ := c.mapHeaps(x.Map.Type())
+	has := sel(sel(e.heapGet(f.curSt, hn, hs), m.T), k.T)
+	e.addObl(&Obligation{Name: fmt.Sprintf("%s#lock.insert[%s]", e.unit, what), Kind: "lock", Func: f.prefix, Label: "insert",
+		Text: "an entry of " + what + " is never replaced: the key is shown absent inside the critical section that inserts it",
+		Guard: f.guard(), Goal: not(has), Pos: f.posOf(x)})
+}
+
+func lockShort(id string) string {
+	if i := strings.LastIndex(id, "."); i >= 0 {
+		return id[i+1:]
+	}
+	return id
+}
+
+// guardedLockOf: is field `name` of struct type t (or package variable) declared guarded?
+func (p *Program) guardedLockOf(pkgPath, typeName, field string) string {
+	for _, g := range p.Guarded {
+		if g.PkgPath == pkgPath && g.Type == typeName && g.Field == field {
+			return g.Lock
+		}
+	}
+	return ""
+}
+
+// guardInfo returns the lock identity protecting the location an address denotes, or "".
+func (f *Frame) guardInfo(a *Addr, src ssa.Value) (lockID string, what string) {
+	p := f.enc.prog
+	if g, ok := src.(*ssa.Global); ok {
+		if l := p.guardedLockOf(g.Pkg.Pkg.Path(), "", g.Name()); l != "" {
+			return "global:" + g.Pkg.Pkg.Path() + "." + l, g.Name()
+		}
+		return "", ""
+	}
+	if a == nil || len(a.Path) == 0 {
+		return "", ""
+	}
+	// last struct step
+	i := len(a.Path) - 1
+	stT := a.PathT[i]
+	n, ok := stT.(*types.Named)
+	if !ok || n.Obj().Pkg() == nil {
+		return "", ""
+	}
+	st := stT.Underlying().(*types.Struct)
+	fieldName := st.Field(a.Path[i]).Name()
+	l := p.guardedLockOf(n.Obj().Pkg().Path(), n.Obj().Name(), fieldName)
+	if l == "" {
+		return "", ""
+	}
+	var names []string
+	for k := 0; k < i; k++ {
+		names = append(names, a.PathT[k].Underlying().(*types.Struct).Field(a.Path[k]).Name())
+	}
+	names = append(names, l)
+	return a.Base + "." + strings.Join(names, "."), n.Obj().Name() + "." + fieldName
+}
+
+func (f *Frame) lockObl(lockID, what string, need int, ins ssa.Instruction) {
+	e := f.enc
+	if !e.lockset || lockID == "" {
+		return
+	}
+	held := lockNone
+	if f.curSt != nil && f.curSt.locks != nil {
+		held = f.curSt.locks[lockID]
+	}
+	mode := map[int]string{lockRead: "read", lockWrite: "write"}[need]
+	goal := "true"
+	if held < need {
+		goal = "false"
+	}
+	e.addObl(&Obligation{Name: fmt.Sprintf("%s#lock.%s[%s]", e.unit, mode, what), Kind: "lock", Func: f.prefix, Label: mode,
+		Text: fmt.Sprintf("access to %s needs its lock in %s mode", what, mode), Guard: f.guard(), Goal: goal, Pos: f.posOf(ins)})
+}
+
+// lockReadObl: a load through an address.
+func (f *Frame) lockReadObl(a *Addr, ins ssa.Instruction) {
+	if !f.enc.lockset {
+		return
+	}
+	u, ok := ins.(*ssa.UnOp)
+	if !ok {
+		return
+	}
+	if f.freshBase(u.X) {
+		return
+	}
+	id, what := f.guardInfo(a, u.X)
+	if id == "" {
+		return
+	}
+	f.lockObl(id, what, lockRead, ins)
+	// remember which lock protects the loaded map value
+	if f.guardedVals == nil {
+		f.guardedVals = map[ssa.Value][2]string{}
+	}
+	f.guardedVals[u] = [2]string{id, what}
+}
+
+func (f *Frame) freshBase(addr ssa.Value) bool {
+	r := rootAlloc(addr)
+	if r == nil {
+		return false
+	}
+	_, isAlloc := r.(*ssa.Alloc)
+	return isAlloc && valueParent(r) == f.fn
+}
+
+// ownObl: a store; guarded locations need the write lock.
+func (f *Frame) ownObl(base, what string, ins ssa.Instruction, isMap bool) {
+	if !f.enc.lockset {
+		return
+	}
+	switch x := ins.(type) {
+	case *ssa.Store:
+		if f.freshBase(x.Addr) {
+			return
+		}
+		av := f.val(x.Addr)
+		var a *Addr
+		if av.Addr != nil {
+			a = av.Addr
+		}
+		if id, w := f.guardInfo(a, x.Addr); id != "" {
+			f.lockObl(id, w, lockWrite, ins)
+		}
+	case *ssa.MapUpdate:
+		if g, ok := f.guardedVals[x.Map]; ok {
+			f.lockObl(g[0], g[1], lockWrite, ins)
+			f.insertObl(x, g[1])
+		}
+	case *ssa.Call:
+		// delete(m, k) / copy into a guarded location
+		if b, ok := x.Call.Value.(*ssa.Builtin); ok && b.Name() == "delete" && len(x.Call.Args) > 0 {
+			if g, ok := f.guardedVals[x.Call.Args[0]]; ok {
+				f.lockObl(g[0], g[1], lockWrite, ins)
+			}
+		}
+	}
+}
+
+func (f *Frame) lockMapObl(m *Val, ins ssa.Instruction, write bool) {
+	if !f.enc.lockset {
+		return
+	}
+	var mv ssa.Value
+	switch x := ins.(type) {
+	case *ssa.Lookup:
+		mv = x.X
+	case *ssa.Range:
+		mv = x.X
+	}
+	if mv == nil {
+		return
+	}
+	if g, ok := f.guardedVals[mv]; ok {
+		f.lockObl(g[0], g[1], lockRead, ins)
+	}
+}
+
+// modGiven: does the contract carry a frame? In ownership mode every contract does: one without a
+// modifies clause is read as `modifies nothing`, for the function itself and at its call sites alike.
+func (e *Enc) modGiven(fc *FuncContract) bool {
+	return fc.ModGiven || (e.lockset && !fc.NoFrame)
 }
